@@ -15,7 +15,7 @@ use crate::proto::{Ctx, attrs};
 pub fn meta() -> Meta {
     Meta {
         level: "exploration",
-        rule: "exhaustive enumeration of operand tuples: for each kind in {bdd,bcdd,zbdd}, each of the 6 orders of 3 variables and each thread configuration: not/8 binary connectives on all 256 resp. 65536 tuples, ite on all triples of a 64-function subset closed under permutation+negation (quick) or all 2^24 triples (thorough), constants/var/not_var, eval on all 8 assignments, cofactors, satisfiable/valid; every connective recomputed on the pairs of a sparse 18-function live set after a collection (three rounds) with a cache that keeps every entry; negation / connectives / constants / variables on the old handles after add_vars(1) (with the same operations computed before it); thorough adds a 4-variable block. A case is non-trivial when all operands are non-constant and pairwise distinct (no terminal/equality shortcut at the root); every enumerated tuple is distinct.",
+        rule: "exhaustive enumeration of operand tuples: for each kind in {bdd,bcdd,zbdd}, each of the 6 orders of 3 variables and each thread configuration: not/8 binary connectives on all 256 resp. 65536 tuples, ite on all triples of a 64-function subset closed under permutation+negation (quick) or all 2^24 triples (thorough), constants/var/not_var, eval on all 8 assignments, cofactors, satisfiable/valid; every connective recomputed on the pairs of a sparse 18-function live set after a collection (three rounds) with a cache that keeps every entry; negation / connectives / constants / variables on the old handles after add_vars(1) (with the same operations computed before it); thorough adds a 4-variable block. A case is non-trivial when all operands are non-constant and pairwise distinct (no terminal/equality shortcut at the root); every enumerated tuple is distinct. `edges` shards: every connective, not and ite through the edge-level entry points (K::F::<op>_edge on borrowed edges of one session). `twomgr` shards: one session of the manager in which, between its own node creations, nodes of a second manager (131072 / 200000 / 4096 slots, fresh) are created; all handles of both managers are read back.",
         assumptions: vec![
             "operands are built through DiagramRules::reduce + then_insert (route A), not through the operators under test".into(),
             "results are read back by the harness's own interpreter over Manager::get_node; eval is compared against it separately".into(),
